@@ -133,18 +133,28 @@ func runC09(tier string) int {
 	}
 	items = uniq
 	r.Set("contents_x_part_splits", len(items))
-	total := uint64(len(items)) * uint64(len(c09Types)) * c09Origins * 3
+	total := uint64(len(items)) * uint64(len(c09Types)) * c09Origins * 4
 	done := r.Parallel(total, func(w int, idx uint64) {
-		layout := int(idx % 3)
-		x := idx / 3
+		layout := int(idx % 4)
+		x := idx / 4
 		origin := int(x % c09Origins)
 		x /= c09Origins
 		typ := c09Types[x%uint64(len(c09Types))]
 		it := items[x/uint64(len(c09Types))]
 		// source text of the literal
 		sep := " "
-		if layout == 1 {
+		if layout == 1 || layout == 3 {
 			sep = "\n\t\t"
+		}
+		if layout == 3 {
+			// the file has Windows line endings throughout (only for literals that span lines)
+			multi := len(it.parts) >= 2
+			for _, p := range it.parts {
+				multi = multi || strings.Contains(p, "\n")
+			}
+			if !multi {
+				return
+			}
 		}
 		if layout == 2 {
 			if len(it.parts) < 2 {
@@ -212,6 +222,9 @@ func runC09(tier string) int {
 		// when the whole content is spelled like an identifier, a constant of that name is defined first (text content is not a constant position)
 		if id := strings.Join(norm, ""); c09IdentRe.MatchString(id) {
 			src = "const " + id + " = replaced_" + id + "\n" + src
+		}
+		if layout == 3 {
+			src = strings.ReplaceAll(src, "\n", "\r\n")
 		}
 		res := comp.Compile(src, comp.Opts{FontPath: fpath, Switches: sw, Cmd: c09Cmd})
 		r.Add("evaluations", 1)
@@ -371,5 +384,5 @@ func runC09(tier string) int {
 		"contents whose terminator would straddle two parts are not generated (the property can be read both ways there)",
 		"for format() origins the source lines are the lines of the exported FormatText's result (its content is C07's business)")
 	return r.Finish(r.Get("evaluations"), r.Get("nontrivial"),
-		"every content of total length <= L over {a, é, space, $, \\, 0, n, p, {, }, #, /, newline-inside-literal} split into 1-3 literal parts x 3 layouts (same line / one part per line / several comment lines between the parts) x 5 string types (none, ascii, braille, a custom one, and the default directive's own name) x 17 origins (after a plain text spelled like the type plus the content, argument of an AutoVar command standing first / in the middle / last in &&- and ||-chains of if, while and do...while conditions and as a switch operand, text statement, inline argument, format() of each, poryswitch case selected directly / through '_' / brace form, argument inside an if, after / before a typed inline text in the same command, after typed texts elsewhere); plus every identifier-like literal of the compiler's own source as a whole text and as a word of a text (statement, inline, formatted; every type); plus texts of K parts for every K up to the bound in the coverage (statement and inline, every string type); a constant named like the content is defined first whenever the content is spelled like an identifier; non-trivial = >= 2 parts and a string type")
+		"every content of total length <= L over {a, é, space, $, \\, 0, n, p, {, }, #, /, newline-inside-literal} split into 1-3 literal parts x 4 layouts (same line / one part per line / several comment lines between the parts / one part per line in a file with Windows line endings) x 5 string types (none, ascii, braille, a custom one, and the default directive's own name) x 17 origins (after a plain text spelled like the type plus the content, argument of an AutoVar command standing first / in the middle / last in &&- and ||-chains of if, while and do...while conditions and as a switch operand, text statement, inline argument, format() of each, poryswitch case selected directly / through '_' / brace form, argument inside an if, after / before a typed inline text in the same command, after typed texts elsewhere); plus every identifier-like literal of the compiler's own source as a whole text and as a word of a text (statement, inline, formatted; every type); plus texts of K parts for every K up to the bound in the coverage (statement and inline, every string type); a constant named like the content is defined first whenever the content is spelled like an identifier; non-trivial = >= 2 parts and a string type")
 }
